@@ -9,10 +9,15 @@ Three-way discipline:
   * mirror: the model's renderer / validity / ordinal vs Python's datetime with the implementation
     out of the picture (InfraError on mismatch).
 """
+import contextlib
 import datetime
 import math
+import os
 import re
 import struct
+import sys
+import time
+import warnings
 
 from .. import wire
 from ..core import InfraError, _jsonable, shrink
@@ -94,6 +99,7 @@ def _objects():
 
 
 OBJ = None
+WARNED = []
 
 
 def obj(name):
@@ -177,6 +183,8 @@ def value_of(c):
         return c["x"]
     if k == "npfloat":
         return numpy.float64(c["x"])
+    if k == "npfloat32":
+        return numpy.float32(c["x"])
     if k == "date":
         return datetime.date(*c["ymd"])
     if k == "datetime":
@@ -458,6 +466,14 @@ def expected(c, v):
         if x < MIN_EPOCH or x > MAX_EPOCH:
             return ("any",)  # within one second of the limits: depends on the rounding direction
         return ("floatsec", x, False)
+    if k == "npfloat32":
+        # a numeric neighbour (not in the table of the unchanged source: None there); when read, read like a float
+        x = float(v)
+        if x != x or abs(x) == float("inf") or not (MIN_EPOCH - 1 < x < MAX_EPOCH + 1):
+            return ("none",)
+        if x < MIN_EPOCH or x > MAX_EPOCH:
+            return ("any",)
+        return ("floatsec", x, True)
     if k in ("text", "bytes"):
         if k == "bytes":
             try:
@@ -515,8 +531,15 @@ def check(exp, out):
             return None
         if out[0] != "value" or out[1][6] != 0:
             return "float epoch not read as whole Unix seconds"
-        got = (DT(*out[1][:6]) - DT(1970, 1, 1)).total_seconds()
-        if not abs(got - exp[1]) < 1:
+        delta = DT(*out[1][:6]) - DT(1970, 1, 1)
+        got = delta.days * 86400 + delta.seconds  # exact integer
+        # "read as Unix seconds in UTC", whole seconds: the second the instant lies in.  For x >= 0 (and integral x) that is
+        # int(x) = floor(x), demanded exactly - never the next second, however close x is to it.  For a negative fraction the
+        # statement leaves two readings: the second toward zero (int(x): the unchanged tree, theorem float_epoch_truncates) and
+        # the wall-clock second containing the instant (floor(x)); both accepted here, the model says which one the tree takes.
+        if got not in (math.trunc(exp[1]), math.floor(exp[1])):
+            if abs(got - exp[1]) < 1:
+                return "float epoch not truncated to the whole Unix second it lies in (carried into the next second)"
             return "float epoch read as another instant"
     return None
 
@@ -560,6 +583,73 @@ def oracle(c, v, out):
             if out["TIMESTAMP"][0] != "raises" or out["DATE"][0] != "raises":
                 return "cast returns a value where parse_iso yields None"
     return None
+
+
+# --------------------------------------------------------------------------- ambient interpreter state
+
+# Process-wide settings the statement does not mention: the result must be the same function of the argument under each of them.
+# `warnings=error` is what `python -W error`, PYTHONWARNINGS=error, warnings.simplefilter('error') and pytest's
+# filterwarnings=error set: any warnings.warn inside the parser then RAISES the warning class.
+AMBIENTS = ["warnings=error", "warnings=ignore", "warnings=always", "TZ=UTC", "TZ=Asia/Kolkata", "TZ=Pacific/Kiritimati", "TZ=unset",
+            "locale=C", "locale=C.UTF-8", "int_max_str_digits=0", "int_max_str_digits=640", "decimal=prec1-traps"]
+
+
+@contextlib.contextmanager
+def ambient(name):
+    """Run the body under the named process-wide setting and restore the previous one."""
+    if not name:
+        yield
+        return
+    key, _, val = name.partition("=")
+    if key == "warnings":
+        with warnings.catch_warnings():
+            warnings.simplefilter(val)
+            yield
+    elif key == "TZ":
+        old = os.environ.get("TZ")
+        if val == "unset":
+            os.environ.pop("TZ", None)
+        else:
+            os.environ["TZ"] = val
+        time.tzset()
+        try:
+            yield
+        finally:
+            if old is None:
+                os.environ.pop("TZ", None)
+            else:
+                os.environ["TZ"] = old
+            time.tzset()
+    elif key == "locale":
+        import locale
+
+        old = locale.setlocale(locale.LC_ALL)
+        try:
+            locale.setlocale(locale.LC_ALL, val)
+        except locale.Error:
+            yield  # not installed on this machine: the body runs under the current locale
+            return
+        try:
+            yield
+        finally:
+            locale.setlocale(locale.LC_ALL, old)
+    elif key == "int_max_str_digits":
+        old = sys.get_int_max_str_digits()
+        sys.set_int_max_str_digits(int(val))
+        try:
+            yield
+        finally:
+            sys.set_int_max_str_digits(old)
+    elif key == "decimal":
+        import decimal
+
+        with decimal.localcontext() as dctx:
+            dctx.prec = 1
+            dctx.traps[decimal.Inexact] = True
+            dctx.traps[decimal.Rounded] = True
+            yield
+    else:
+        raise InfraError("unknown ambient setting %r" % (name,))
 
 
 # --------------------------------------------------------------------------- evaluation
@@ -642,8 +732,27 @@ def evaluate(ctx, cases):
                 iso = DT(y, mo, d, H, M, S, us).isoformat(sep=c["sep"], timespec={0: "seconds", 3: "milliseconds", 6: "microseconds"}[c["k"]])
                 if iso != t:
                     raise InfraError("harness rendering %r differs from datetime.isoformat %r" % (t, iso))
-        out = impl_all(c, v)
-        again = outcome(PARSE(), v)
+        amb = c.get("ambient")
+        strict = None
+        with ambient(amb):
+            out = impl_all(c, v)
+            again = outcome(PARSE(), v)
+        if amb:
+            ctx.hit("ambient:" + amb)
+        else:
+            # clause-free observation: does the parser (or a cast) emit any warning at all on this input?
+            with warnings.catch_warnings(record=True) as rec:
+                warnings.simplefilter("always")
+                impl_all(c, v)
+            if rec:
+                ctx.hit("warnings-emitted:" + rec[0].category.__name__, len(rec))
+                if len(WARNED) < 5:
+                    WARNED.append({"case": _jsonable(c), "category": rec[0].category.__name__, "message": str(rec[0].message)[:160]})
+            else:
+                ctx.hit("warnings-emitted:none")
+            # the same input with warnings promoted to errors, judged by the same clauses
+            with ambient("warnings=error"):
+                strict = impl_all(c, v)
         ctx.case(c, True)
         if len(ctx.samples) < 6 and ctx.evaluations % 9973 == 1:
             ctx.samples.append(_jsonable(c))
@@ -670,14 +779,28 @@ def evaluate(ctx, cases):
                         if c2.get("kind") != c["kind"]:
                             return False
                         v2 = value_of(c2)
-                        return _norm(oracle(c2, v2, impl_all(c2, v2))) == _norm(clause)
+                        with ambient(c2.get("ambient")):
+                            o3 = impl_all(c2, v2)
+                        return _norm(oracle(c2, v2, o3)) == _norm(clause)
                     except InfraError:
                         return False
                 c_min = shrink(c, still)
             v2 = value_of(c_min)
-            o2 = impl_all(c_min, v2)
+            with ambient(c_min.get("ambient")):
+                o2 = impl_all(c_min, v2)
             ctx.fail(c_min, oracle(c_min, v2, o2) or clause, impl=o2, model=m if c_min is c else None,
                      detail={"input": repr(v2)[:120]} if c_min["kind"] in ("iso", "isotail") else None)
+            continue
+        if strict is not None and strict != out:
+            c2 = dict(c, ambient="warnings=error")
+            cl2 = oracle(c2, v, strict)
+            ctx.hit("differs-under-warnings=error")
+            if cl2 is not None:
+                ctx.fail(c2, cl2, impl=strict, model=m,
+                         detail={"input": repr(v)[:120], "ambient": "warnings promoted to errors (python -W error / PYTHONWARNINGS=error / "
+                                 "warnings.simplefilter('error')); under the default filter the outcome is %r" % (out["parse"],)})
+            else:
+                ctx.disagree(c2, strict, out, "the implementation under warnings.simplefilter('error') vs under the default warnings filter (the result depends on ambient interpreter state)")
             continue
         if "parse" in m:
             mp = m["parse"]
@@ -756,13 +879,13 @@ GRID_SUFFIXES = [["none"], ["z"], ["plus", 1, 0], ["plusb", 1, 0], ["plush", 1],
                  ["minus", 5, 0], ["minusb", 5, 30], ["minush", 12], ["minus", 0, 0]]
 
 
-def grid_cases(ctx):
+def grid_cases(ctx, days=None):
     """Deterministic and exhaustive on every run (and again in `intensify`): EVERY layout of a canonical rendering - date-only,
     minute form (T / space), seconds form (T / space) without and with a fraction of 1 / 3 / 6 digits - crossed with EVERY tail
     (none, Z, +HH:MM, +HHMM, +HH, -HH:MM, -HHMM, -HH) and both encodings (str, UTF-8 bytes), each through the parser and the three
     casts.  Four fixed days (a leap day, both ends of the range, the epoch) and one day of this run.  Simplest layouts first, so the
     first failing case of a clause is a small one."""
-    days = GRID_DAYS + [rand_dt(ctx.rng)]
+    days = GRID_DAYS + [rand_dt(ctx.rng)] if days is None else days
     layouts = [("date", "T", 0), ("min", "T", 0), ("min", " ", 0)] + [("sec", sep, k) for k in (0, 1, 3, 6) for sep in ("T", " ")]
     for dt in days:
         for form, sep, k in layouts:
@@ -1002,6 +1125,74 @@ def timeofday_cases(ctx, n):
             yield {"kind": "strsub", "text": t, "casts": True}
 
 
+WHOLE_SECONDS = [0, 1, 2, 59, 60, 3599, 86399, 86400, 951782400, 1718530754, 2**31 - 1, 2**31, 2**32, 10**10, MAX_EPOCH - 1, MAX_EPOCH, 10**15]
+FRACTIONS = [0.5, 0.25, 0.999, 0.999999, 0.99999949, 0.9999995, 0.99999951, 0.9999996, 0.9999999, 0.99999999, 0.0000004, 0.0000005, 0.0000006, 1e-9]
+
+
+def float_boundary_cases(ctx):
+    """Deterministic and exhaustive on every run: floats adjacent to a whole second.  For every whole second n of WHOLE_SECONDS
+    and its negative: the float n itself, its two neighbours nextafter(n, +-inf), n + f and n - f for every fraction f of FRACTIONS
+    (half a second, a quarter, and both sides of the half-microsecond where datetime.fromtimestamp rounds) - as Python float (with the
+    three casts), numpy.float64, and rounded to numpy.float32 (a numeric neighbour).  Small magnitudes first."""
+    seen = set()
+    for n in WHOLE_SECONDS:
+        for sgn in (1, -1):
+            base = float(sgn * n)
+            xs = [base, math.nextafter(base, math.inf), math.nextafter(base, -math.inf)]
+            xs += [base + f for f in FRACTIONS] + [base - f for f in FRACTIONS]
+            for x in xs:
+                key = struct.pack(">d", x)
+                if key in seen:
+                    continue
+                seen.add(key)
+                ctx.hit("float-boundary:" + ("integral" if x == math.floor(x) else
+                                             ("negative-fraction" if x < 0 else
+                                              ("within-half-microsecond-below-a-second" if x - math.floor(x) >= 0.9999995 else "positive-fraction"))))
+                yield {"kind": "float", "x": x, "casts": True}
+                yield {"kind": "npfloat", "x": x, "casts": abs(n) < 100}
+    import numpy
+    seen32 = set()
+    for n in WHOLE_SECONDS:
+        for sgn in (1, -1):
+            b32 = numpy.float32(sgn * n)
+            for y in [b32, numpy.nextafter(b32, numpy.float32(math.inf)), numpy.nextafter(b32, numpy.float32(-math.inf)),
+                      numpy.float32(sgn * n + 0.5), numpy.float32(sgn * n - 0.5), numpy.float32(sgn * n + 0.9999996), numpy.float32(sgn * n - 0.9999996)]:
+                x = float(y)
+                if x not in seen32 and x == x and abs(x) != math.inf:
+                    seen32.add(x)
+                    yield {"kind": "npfloat32", "x": x, "casts": abs(n) < 100}
+
+
+def ambient_cases(ctx):
+    """Deterministic: a representative of every input stream (one day of the layout x tail x encoding grid, the epoch and float
+    edges, the floats next to a whole second, every foreign object and native kind, the edge texts, digit strings at the
+    integer-conversion limits) under every setting of AMBIENTS, judged by the same clauses and compared with the same model."""
+    def rep():
+        for c in grid_cases(ctx, days=GRID_DAYS[:1]):
+            if c["enc"] == "str" or c["suffix"][0] in ("plus", "z"):
+                yield c
+        for e in EPOCH_EDGES:
+            yield {"kind": "int", "n": e, "casts": True}
+            if e >= 0:
+                yield {"kind": "text", "text": str(e), "casts": True}
+        for x in FLOAT_EDGES + [0.9999996, 1718530754.9999998, math.nextafter(1.0, 0.0), -0.9999996, 86399.9999999]:
+            yield {"kind": "float", "x": x, "casts": True}
+            yield {"kind": "npfloat", "x": x}
+        for c in object_cases(ctx):
+            if c["kind"] not in ("npdt", "pandas"):
+                yield c
+        for t in EDGE_TEXTS[:60] + ["1e+10 seconds ago", "2023-04-18T12:34:56+xx", "+", "9" * 640, "9" * 641, "9" * 4300, "9" * 4301, "9" * 5000]:  # no zero-padded digit strings: the digit limit is a declared platform parameter (4300) of the model
+            yield {"kind": "text", "text": t, "casts": True}
+        for ty in ("Decimal", "Fraction", "np.float32", "np.uint64", "bool"):
+            for n in (0, 1, 86399):
+                if holds(ty, n):
+                    yield {"kind": "num", "ty": ty, "n": n, "casts": True}
+    base = list(rep())
+    for a in AMBIENTS:
+        for c in base:
+            yield dict(c, ambient=a)
+
+
 def num_cases(ctx, n):
     """==-equal numbers of different types, each judged on its own: 1, 1.0, True, Decimal(1), Fraction(1), numpy scalars, the
     digits as text / bytes — in fresh random orders, so that an answer remembered from an equal argument of another type shows."""
@@ -1225,6 +1416,7 @@ def run(ctx):
     # 2. variants, epochs, natives, objects, malformed text
     batches(ctx, grid_cases(ctx))
     batches(ctx, object_cases(ctx))
+    batches(ctx, float_boundary_cases(ctx))
     batches(ctx, epoch_cases(ctx, ctx.scale(5000, 40000)))
     batches(ctx, native_cases(ctx, ctx.scale(1000, 8000)))
     batches(ctx, text_cases(ctx, ctx.scale(10000, 80000)))
@@ -1238,10 +1430,16 @@ def run(ctx):
     batches(ctx, num_cases(ctx, ctx.scale(40, 400)))
     for c in seq_cases(ctx, ctx.scale(60, 600)):
         evaluate_seq(ctx, c)
+    batches(ctx, ambient_cases(ctx))
+    ctx.note("ambient_settings", AMBIENTS)
+    ctx.note("warnings_emitted_by_the_parser_or_casts", WARNED if WARNED else "none on any generated input (every input was also run under "
+             "warnings.simplefilter('always') with the warnings recorded, and under simplefilter('error'))")
 
 
 def intensify(ctx):
     batches(ctx, grid_cases(ctx))
+    batches(ctx, float_boundary_cases(ctx))
+    batches(ctx, ambient_cases(ctx))
     batches(ctx, tail_cases(ctx, 10000))
     batches(ctx, text_cases(ctx, 20000))
     batches(ctx, epoch_cases(ctx, 10000))
